@@ -103,6 +103,25 @@ def run_part(ctx, quick):
     args = [harness, "run", "--seed", str(ctx.seed), "--tier", "quick" if quick else "thorough", "--out", out,
             "--repo", vlib.REPO, "--workers", os.environ.get("VERIF_C02_WORKERS", "8")]
     replayed = False
+    # regression corpus: minimal witnesses of the findings LISTED in known_findings.json (a witness whose
+    # finding is not listed there is not run: its KNOWN-FINDING line would not be legitimate).  The slow
+    # ones (runaway recursion: 30-60 CPU-s until the child dies, four times) only in the thorough tier.
+    listed = set(k["id"] for k in vlib.known_findings("C02") if k.get("status") == "known")
+    cheap = ("F-C02-1", "F-C02-4", "F-C02-8", "F-C02-9")
+    wdir = os.path.join(vlib.VERIF, "corpus", "C02")
+    witnesses, skipped_w = [], []
+    for nm in sorted(os.listdir(wdir)) if os.path.isdir(wdir) else []:
+        if not (nm.startswith("F-C02-") and nm.endswith(".cue")):
+            continue
+        fid = "-".join(nm.split("-")[:3])
+        if fid not in listed:
+            skipped_w.append(nm + " (finding not listed)")
+        elif quick and fid not in cheap:
+            skipped_w.append(nm + " (thorough tier only)")
+        else:
+            witnesses.append(os.path.join(wdir, nm))
+    if witnesses and not ctx.replay:
+        args += ["--witnesses", ",".join(witnesses)]
     if ctx.replay:
         rp = json.load(open(ctx.replay))
         ei = rp.get("explore_input")
@@ -152,6 +171,8 @@ def run_part(ctx, quick):
 
     cov = {
         "label": "EXPLORATION (isolated-worker runs of the real pipeline); not proof",
+        "regression_witnesses_run": [os.path.basename(w) for w in witnesses],
+        "regression_witnesses_skipped": skipped_w,
         "replayed_single_input": replayed,
         "seed": rpt["seed"], "tier": rpt["tier"],
         "distinct_inputs": rpt["distinct_inputs"],
